@@ -180,7 +180,10 @@ def finish(prop, mod, tier, seed, outs, extra, t0):
         snaps.update(tuple(x) for x in o.get('snaps', []))
         cross_points += o['cross']['points']
         proved_names = {r['name'] for r in o['results'] if r['status'] == 'proved'}
-        for bad in o['cross']['bad']:
+        # a refuted callee-contract fact explains native failures of obligations that
+        # were proved modularly on top of it: those are not engine faults
+        callee_broken = any(r['status'] == 'refuted' and ':callee.' in r['name'] for r in o['results'])
+        for bad in ([] if callee_broken else o['cross']['bad']):
             full = f"{o['name']}:{bad['name']}"
             if any(p == full or p.startswith(full + '@p') for p in proved_names):
                 faults.append(f"engine cross-check: {full} proved symbolically but fails natively: {bad}")
@@ -245,7 +248,7 @@ def finish(prop, mod, tier, seed, outs, extra, t0):
             ledger = json.load(f)
         expected = ledger.get(f'{prop}:{tier}')
         if expected is not None:
-            have = set(names)
+            have = set(ledger_names(names))
             missing = [n for n in expected if n not in have]
             for n in missing[:50]:
                 undecided.append(dict(name=n, detail='obligation in the ledger was not generated by this run'))
@@ -334,6 +337,12 @@ def finish(prop, mod, tier, seed, outs, extra, t0):
           f'{canaries} canaries refuted, {cross_points} native cross-check points, {wall}s')
     code = {'held': 0, 'violation': 1, 'undecided': 2, 'fault': 3}[status]
     return code, names
+
+
+def ledger_names(names):
+    """contract-level obligation names: side conditions (division denominators)
+    and path suffixes depend on incidental code structure and are left out"""
+    return sorted({n.split('@p')[0] for n in names if ':div.nonzero[' not in n and ':no_exception[' not in n})
 
 
 def replay(path):
